@@ -9,7 +9,8 @@ BI = "xstate_statemachine.base_interpreter:BaseInterpreter."
 SI = "xstate_statemachine.sync_interpreter:SyncInterpreter."
 A = "self._active_state_nodes"
 # bookkeeping of timers / delayed sends / child actors: written whenever states are exited or entered or actions run
-TASKS = ["self._after_events", "self._after_threads", "self._pending_send_cancels", "self._scheduled_sends", "self._actors"]
+TASKS = ["self._after_events", "self._after_threads", "self._pending_send_cancels", "self._scheduled_sends", "self._actors",
+         "self._raise_depth"]     # (_raise_depth: the asyncio engine's count of chained self-raised events, bumped by a `raise` action)
 
 
 def register(w):
